@@ -221,7 +221,17 @@ pub fn gen_stream(info: &MethodInfo, p: &Params, r: &mut Rng, len: usize, fault_
 				c2.signed = false;
 				c2.integer = false;
 				let a = feed::values(&mut rv, len, &cfg, fc);
-				let vol = feed::values(&mut r.sub("volumes"), len, &c2, &mut FaultCount::new());
+				let mut vol = feed::values(&mut r.sub("volumes"), len, &c2, &mut FaultCount::new());
+				// candles without trades: exactly zero volume next to candles with volume
+				if !fault_free && rv.chance(0.4) {
+					let mut rz = r.sub("zero_volume");
+					for w in vol.iter_mut().skip(1) {
+						if rz.chance(0.15) {
+							*w = 0.0;
+						}
+					}
+					*fc.entry("feed:zero_volume".into()).or_insert(0) += 1;
+				}
 				a.iter().zip(vol).map(|(x, w)| In::p(*x, w)).collect()
 			} else {
 				// crossing detectors: two series that touch and cross often
@@ -281,7 +291,16 @@ pub fn order_pattern(r: &mut Rng, len: usize, n: usize, fc: &mut FaultCount, sub
 	}
 	while out.len() < len {
 		let seg = (1 + r.usize_below(3 * n + 10)).min(len - out.len());
-		match r.below(7) {
+		match r.below(8) {
+			7 => {
+				// zeros of both signs as the extremum of the window: every other letter lies strictly on one side
+				let side = if r.chance(0.5) { 1.0 } else { -1.0 };
+				let letters = [0.0, -0.0, side * scale, 2.0 * side * scale, 0.0, -0.0];
+				for _ in 0..seg {
+					out.push(*r.pick(&letters));
+				}
+				bump(fc, "feed:signed_zero_extremum");
+			}
 			0 => {
 				let k = 2 + r.usize_below(5);
 				let mut letters: Vec<f64> = (0..k).map(|j| (j as f64 - 1.0) * scale).collect();
@@ -375,6 +394,24 @@ pub fn run_a(f: &Factory, stream: &[In]) -> Result<Vec<Out>, (usize, String)> {
 	Ok(outs)
 }
 
+/// `new(params, &x0)` followed directly by `next(x1), next(x2) ...` - the construction value is not fed again; it still
+/// counts as the whole prehistory. Output i belongs to stream element i + 1.
+pub fn run_a_no_refeed(f: &Factory, stream: &[In]) -> Result<Vec<Out>, (usize, String)> {
+	let mut s = match construct(f, &stream[0]) {
+		Made::Ok(s) => s,
+		Made::Rejected(e) => return Err((usize::MAX, format!("constructor rejected documented-valid parameters: {e}"))),
+		Made::Panicked(m) => return Err((usize::MAX - 1, format!("constructor panicked: {m}"))),
+	};
+	let mut outs = Vec::with_capacity(stream.len());
+	for (i, x) in stream.iter().enumerate().skip(1) {
+		match guarded(|| s.next(x)) {
+			Ok(o) => outs.push(o),
+			Err(m) => return Err((i, m)),
+		}
+	}
+	Ok(outs)
+}
+
 pub fn def_property(name: &str) -> &'static str {
 	match name {
 		"SMA" | "WMA" | "SWMA" | "TRIMA" | "HMA" | "LinReg" | "Conv" | "VWMA" | "Derivative" | "Momentum" | "RateOfChange"
@@ -396,28 +433,29 @@ pub fn def_property_p(name: &str, p: &Params) -> &'static str {
 }
 
 /// evaluate the definitional oracle on run A's outputs; `max_ratio` receives |y - v| / unit for calibration
-pub fn check_defs(
-	case: &MCase,
-	outs: &[Out],
-	stats: &mut Stats,
-	max_ratio: &mut f64,
-) -> Vec<Violation> {
+pub fn check_defs(case: &MCase, outs: &[Out], stats: &mut Stats, max_ratio: &mut f64) -> Vec<Violation> {
+	check_defs_from(case, outs, stats, max_ratio, false)
+}
+
+/// `no_refeed`: the outputs come from `run_a_no_refeed` (output i belongs to stream element i + 1)
+pub fn check_defs_from(case: &MCase, outs: &[Out], stats: &mut Stats, max_ratio: &mut f64, no_refeed: bool) -> Vec<Violation> {
 	let mut vs = Vec::new();
+	let skip = usize::from(no_refeed);
 	let Some(mut r) = refm::make_ref(&case.sut, &case.params, &case.stream[0]) else {
 		stats.probe("no_reference_for_parameters");
 		return vs;
 	};
 	let prop = def_property_p(&case.sut, &case.params);
 	let n = case.params.len();
-	for (i, x) in case.stream.iter().enumerate() {
+	for (i, x) in case.stream.iter().enumerate().skip(skip) {
 		let want = r.next(x);
-		match refm::compare(&outs[i], &want) {
+		match refm::compare(&outs[i - skip], &want) {
 			Ok(true) => {
 				stats.checked += 1;
 				if let RefOut::Arith(t) = &want {
 					let u = r.unit();
 					if u > 0.0 {
-						let ratio = ((outs[i].f(0) - t.v).abs()) / u;
+						let ratio = ((outs[i - skip].f(0) - t.v).abs()) / u;
 						if ratio > *max_ratio {
 							*max_ratio = ratio;
 						}
@@ -426,7 +464,7 @@ pub fn check_defs(
 				if let RefOut::Var(t) = &want {
 					let u = r.unit();
 					if u > 0.0 {
-						let y = outs[i].f(0);
+						let y = outs[i - skip].f(0);
 						let ratio = ((y * y - t.v).abs()) / u;
 						if ratio > *max_ratio {
 							*max_ratio = ratio;
@@ -438,7 +476,7 @@ pub fn check_defs(
 			Err(d) => {
 				let phase = if (i as u64) < n { "warmup" } else { "steady" };
 				vs.push(
-					Violation::new(prop, &case.sut, "definition", i, format!("step {i} ({phase}), input {:?}: {d}", x))
+					Violation::new(prop, &case.sut, if no_refeed { "definition_without_refeed" } else { "definition" }, i, format!("step {i} ({phase}){}, input {:?}: {d}", if no_refeed { ", instance built from element 0 and fed from element 1 on" } else { "" }, x))
 						.tag("length", n)
 						.tag("phase", phase),
 				);
